@@ -9,6 +9,7 @@ import os
 import re
 import subprocess
 import sys
+import tempfile
 import time
 import traceback
 
@@ -39,8 +40,11 @@ def run_tasks(prop, tasks, tier, jobs, timeout, verbose=False):
     while pending or running:
         while pending and len(running) < jobs:
             t = pending.pop(0)
+            of = tempfile.TemporaryFile(mode='w+')      # not a pipe: a large result must not block the child
+            ef = tempfile.TemporaryFile(mode='w+')
             p = subprocess.Popen([sys.executable, '-m', 'hv.report.runner', prop, '--task', t, '--tier', tier],
-                                 cwd=ROOT, env=env, stdout=subprocess.PIPE, stderr=subprocess.PIPE, text=True)
+                                 cwd=ROOT, env=env, stdout=of, stderr=ef, text=True)
+            p._hv_files = (of, ef)
             running[t] = (p, time.time())
         time.sleep(0.05)
         for t, (p, t0) in list(running.items()):
@@ -48,13 +52,20 @@ def run_tasks(prop, tasks, tier, jobs, timeout, verbose=False):
             if rc is None:
                 if time.time() - t0 > timeout:
                     p.kill()
-                    p.communicate()
+                    p.wait()
+                    for f in p._hv_files:
+                        f.close()
                     del running[t]
                     results.append({'task': t, 'obligations': [{'name': 'task-completes', 'status': 'unknown', 'backend': 'hv', 'time_s': timeout,
                                                                 'fp': 'timeout', 'reason': 'task exceeded its %ds wall-clock limit' % timeout, 'kind': 'limit'}],
                                     'units': [], 'wall_s': timeout})
                 continue
-            out, err = p.communicate()
+            of, ef = p._hv_files
+            of.seek(0)
+            ef.seek(0)
+            out, err = of.read(), ef.read()
+            of.close()
+            ef.close()
             del running[t]
             r = None
             for l in out.splitlines():
